@@ -7,7 +7,7 @@ use pdatastructs::countminsketch::CountMinSketch;
 use serde_json::json;
 use std::sync::Mutex;
 
-pub const RULE: &str = "grid eps in {0.3,0.1,0.03,0.01} x delta in {0.9,0.5,0.2,0.05,0.01,1e-3,1e-4} x stream in {uniform, zipf(1.1), adversarial-heavy (floor(0.9/eps) heavy hitters each just above eps*N plus a light tail that is queried)}; per cell S independent seeded hashers (Mix; SipHash on a subset), 400-500 queried elements per seed; failure = overestimate > eps*N; verdict on the per-seed failure fractions: violated iff mean - 5*SE > delta in two independent stages (fresh seeds, 4x trials). non-trivial = (cell, seed) execution whose stream had total weight > 0 and >= 100 queried elements; distinct = (cell, seed) pairs";
+pub const RULE: &str = "grid eps in {0.3,0.1,0.03,0.01, e/64, e/1024 (power-of-two widths)} x delta in {0.9,0.5,0.2,0.05,0.01,1e-3,1e-4} x stream in {uniform, zipf(1.1), adversarial-heavy (floor(0.9/eps) heavy hitters each just above eps*N plus a light tail that is queried), the same into a sketch reused after clear()}; per cell S independent seeded hashers (Mix; SipHash on a subset), 400-500 queried elements per seed; failure = overestimate > eps*N; verdict on the per-seed failure fractions: violated iff mean - 5*SE > delta in two independent stages (fresh seeds, 4x trials). non-trivial = (cell, seed) execution whose stream had total weight > 0 and >= 100 queried elements; distinct = (cell, seed) pairs";
 pub const ASSUMPTIONS: &[&str] = &[
     "the fraction is taken over (hasher seed, queried element) pairs as the property states",
     "known finding: double hashing makes two keys that agree on (h1 mod w, h2 mod w) collide in every row, so the failure fraction has a floor of about H/w^2 independent of d; cells below that floor are listed in known_findings.json with a magnitude envelope",
@@ -20,6 +20,8 @@ pub enum Stream {
     Uniform,
     Zipf,
     Adversarial,
+    /// an unrelated stream, clear(), then the adversarial stream into the reused sketch
+    AdversarialAfterClear,
 }
 
 impl Stream {
@@ -28,6 +30,7 @@ impl Stream {
             Stream::Uniform => "uniform",
             Stream::Zipf => "zipf",
             Stream::Adversarial => "adversarial-heavy",
+            Stream::AdversarialAfterClear => "adversarial-heavy-after-clear",
         }
     }
 }
@@ -58,7 +61,14 @@ fn one_seed(eps: f64, delta: f64, stream: Stream, bh: CtlBuildHasher, r: &mut Fa
             r.shuffle(&mut items);
             queried = 0..500;
         }
-        Stream::Adversarial => {
+        Stream::Adversarial | Stream::AdversarialAfterClear => {
+            if stream == Stream::AdversarialAfterClear {
+                // previous life of the sketch: a dense unrelated stream, then clear()
+                for i in 0..3000u64 {
+                    c.add_n(&key(2_000_000 + i), &(1 + i % 7));
+                }
+                c.clear();
+            }
             let h = (0.9 / eps).floor() as u64;
             let l = 2000u64;
             // heavy weight hw just above eps*N with N = h*hw + l
@@ -148,12 +158,20 @@ fn mode_tag(m: HMode) -> u64 {
 pub fn run(ctx: &Ctx) -> Report {
     let mut rep = Report::new();
     let seeds = ctx.tier.pick(1500, 12_000);
-    let epss = [0.3, 0.1, 0.03, 0.01];
+    // e/1024 and e/64: widths that are exact powers of two
+    let epss = [0.3, 0.1, 0.03, 0.01, std::f64::consts::E / 1024.0, std::f64::consts::E / 64.0];
     let deltas = [0.9, 0.5, 0.2, 0.05, 0.01, 1e-3, 1e-4];
     let mut cells = vec![];
     for &eps in &epss {
         for &delta in &deltas {
-            for stream in [Stream::Uniform, Stream::Zipf, Stream::Adversarial] {
+            for stream in [Stream::Uniform, Stream::Zipf, Stream::Adversarial, Stream::AdversarialAfterClear] {
+                if stream == Stream::AdversarialAfterClear && !(delta == 0.2 || delta == 0.05) {
+                    continue;
+                }
+                let pow2 = (eps - std::f64::consts::E / 1024.0).abs() < 1e-12 || (eps - std::f64::consts::E / 64.0).abs() < 1e-12;
+                if pow2 && (stream != Stream::Adversarial || !(delta == 0.5 || delta == 0.2 || delta == 0.05)) {
+                    continue; // power-of-two widths: adversarial stream, moderate delta only
+                }
                 for mode in [HMode::Mix, HMode::Sip] {
                     if mode == HMode::Sip && !(stream == Stream::Adversarial && (delta == 0.05 || delta == 0.2 || delta == 1e-3)) {
                         continue;
